@@ -90,7 +90,24 @@ fn shrink_cfg(cfg: &Value) -> Vec<Value> {
     out
 }
 
+/// a content in which the second label's name starts exactly text_start bytes into the text
+/// section, i.e. its text offset equals the pointer value of the first string cell
+fn gen_alias_corner(r: &mut Rng, big: bool) -> Content {
+    let cells = r.range(1, 3);
+    let mut c = Content { big, data: r.bytes(cells * 4), ..Default::default() };
+    // one string cell, two labels: text_start = data + 4 * 1 + 8 * 2
+    let text_start = cells * 4 + 4 + 16;
+    let filler: String = (0..text_start - 1).map(|i| (b'a' + (i % 26) as u8) as char).collect();
+    c.text.insert(0, filler.clone());
+    c.labels.insert(0, vec![filler]);
+    c.labels.insert(if cells > 1 { 4 } else { cells * 4 }, vec![r.pick(&["Z", "Count", "Y"]).to_string()]);
+    c
+}
+
 fn gen_content(r: &mut Rng, big: bool) -> Content {
+    if r.chance(1, 24) {
+        return gen_alias_corner(r, big);
+    }
     let len = match r.weighted(&[70, 20, 10]) {
         0 => r.range(1, 12) * 4,
         1 => r.range(0, 50),
